@@ -27,6 +27,11 @@ class ChunkReader:
 
     recv = read
 
+    def recv_into(self, buf, nbytes=0):
+        r = self.read(nbytes or len(buf))
+        buf[: len(r)] = r
+        return len(r)
+
     def close(self):
         pass
 
@@ -390,7 +395,7 @@ ths = [threading.Thread(target=run, args=(i, c)) for i, c in enumerate(chans)]
 """
 
 
-def real_gateways(ck, tier):
+def real_gateways(ck, tier, only=None):
     """real gateways (popen, and a socket one installed through it): several OS threads send frames far larger than a pipe
     buffer at the same time on one connection, initiator -> worker and worker -> initiator; every item must arrive intact on
     its own channel and the gateway must survive"""
@@ -408,6 +413,13 @@ def real_gateways(ck, tier):
             gws.append(("socket", group.makegateway("socket//installvia=c08p//id=c08s")))
         except Exception as e:  # noqa
             ck.count("real_gateway_socket_unavailable")
+        try:
+            # the proxied transport: a frame is ONE item on the io channel, whatever its size (C16)
+            gws.append(("via", group.makegateway("popen//via=c08p//id=c08v")))
+        except Exception as e:  # noqa
+            ck.count("real_gateway_via_unavailable")
+        if only is not None:
+            gws = [g for g in gws if g[0] in only]
         for kind, gw in gws:
             for size in sizes:
                 nthr = 4
@@ -451,6 +463,42 @@ def real_gateways(ck, tier):
                     st, val = X.with_timeout(down, 150)
                     if st != "ok":
                         bad.append(("down", st, repr(val)[:120]))
+                # a second shape: one thread streams large items while another sends many small ones on another channel
+                if not bad:
+                    def mixed():
+                        big = gw.remote_exec(W_ACK)
+                        small = gw.remote_exec(W_ACK)
+                        res = []
+
+                        def many():
+                            try:
+                                for j in range(150):
+                                    d = bytes([j % 251]) * 10
+                                    small.send(d)
+                                    if small.receive(60) != (len(d), zlib.crc32(d)):
+                                        res.append(("small-ack-differs", j))
+                                small.send(None)
+                            except Exception as e:  # noqa
+                                res.append(("small", type(e).__name__, str(e)[:60]))
+
+                        th = threading.Thread(target=many, daemon=True)
+                        th.start()
+                        for j in range(4):
+                            d = bytes([200 + j]) * size
+                            big.send(d)
+                            if big.receive(60) != (len(d), zlib.crc32(d)):
+                                res.append(("big-ack-differs", j))
+                        big.send(None)
+                        th.join(120)
+                        if th.is_alive():
+                            res.append(("small-sender-blocked",))
+                        return res
+
+                    st, val = X.with_timeout(mixed, 150)
+                    if st != "ok":
+                        bad.append(("mixed", st, repr(val)[:120]))
+                    elif val:
+                        bad += val
                 ck.case(("real-gateway", kind, size))
                 ck.count("real_gateway_runs_" + kind)
                 if bad:
